@@ -551,6 +551,96 @@ pub fn random_program_from<R: RngCore>(mut b: Builder, rng: &mut R, cfg: &GenCfg
     b
 }
 
+/// Append `levels` blank rows (every selector zero) whose four wires are
+/// fresh witnesses, and choose those witnesses so that the `levels` highest
+/// coefficients (X^(n-1) .. X^(n-levels)) of every wire column's interpolation
+/// polynomial over the padded domain vanish: a satisfied circuit whose wire
+/// polynomials have degree < n - levels (random witnesses never produce one).
+pub fn low_degree_columns(mut b: Builder, levels: usize) -> Builder {
+    let zero = BlsScalar::zero();
+    let first_row = b.rows();
+    let mut idx: Vec<[usize; 4]> = Vec::new();
+    for _ in 0..levels {
+        let mut regs = [0usize; 4];
+        let mut ins = [0usize; 4];
+        for k in 0..4 {
+            ins[k] = b.scalar_input(zero);
+            b.push(Op::Witness(ins[k])).unwrap();
+            regs[k] = b.last();
+        }
+        b.push(Op::Raw { s: [zero; 11], pi: Pi::None, w: regs }).unwrap();
+        idx.push(ins);
+    }
+    let snap = b.c.verif_snapshot();
+    let n = snap.gates.len().next_power_of_two();
+    let w = crate::refimpl::fft::root_of_unity(n);
+    // coefficient of X^(n-t) = (1/n) * sum_j v_j w^(j t)
+    for col in 0..4 {
+        let mut m: Vec<Vec<BlsScalar>> = Vec::new();
+        for t in 1..=levels {
+            let wt = crate::refimpl::fft::pow(&w, t as u64);
+            let mut known = zero;
+            let mut p = BlsScalar::one();
+            for (j, g) in snap.gates.iter().enumerate() {
+                if j < first_row || j >= first_row + levels {
+                    known += snap.witnesses[g.w[col]] * p;
+                }
+                p *= wt;
+            }
+            let mut row: Vec<BlsScalar> = (0..levels).map(|l| crate::refimpl::fft::pow(&wt, (first_row + l) as u64)).collect();
+            row.push(-known);
+            m.push(row);
+        }
+        // Gaussian elimination (Vandermonde in distinct nodes: regular)
+        for i in 0..levels {
+            let piv = (i..levels).find(|r| m[*r][i] != zero).expect("regular system");
+            m.swap(i, piv);
+            let inv = m[i][i].invert().unwrap();
+            for c in i..=levels {
+                m[i][c] *= inv;
+            }
+            for r in 0..levels {
+                if r != i && m[r][i] != zero {
+                    let f = m[r][i];
+                    for c in i..=levels {
+                        let v = m[i][c] * f;
+                        m[r][c] -= v;
+                    }
+                }
+            }
+        }
+        for l in 0..levels {
+            b.inputs.scalars[idx[l][col]] = m[l][levels];
+        }
+    }
+    // replay the program with the solved inputs
+    let ops = b.prog.ops.clone();
+    let mut b2 = Builder::new();
+    b2.inputs = b.inputs.clone();
+    b2.prog.n_scalar_inputs = b.prog.n_scalar_inputs;
+    b2.prog.n_point_inputs = b.prog.n_point_inputs;
+    b2.prog.n_digit_inputs = b.prog.n_digit_inputs;
+    for op in ops {
+        b2.push(op).expect("replay of a program that built before");
+    }
+    b2.families = b.families;
+    b2
+}
+
+/// Highest non-zero coefficient index (+1) of each wire column's interpolation
+/// polynomial, for evidence and self-checks.
+pub fn column_degrees_plus_one(snap: &dusk_plonk::verif::Snapshot) -> [usize; 4] {
+    let n = snap.gates.len().next_power_of_two();
+    let mut out = [0usize; 4];
+    for col in 0..4 {
+        let mut v: Vec<BlsScalar> = snap.gates.iter().map(|g| snap.witnesses[g.w[col]]).collect();
+        v.resize(n, BlsScalar::zero());
+        let c = crate::refimpl::fft::idft(&v, n);
+        out[col] = crate::refimpl::fft::trim(c).len();
+    }
+    out
+}
+
 pub fn _unused(_: BlsScalar) -> BlsScalar {
     pow2(1)
 }
